@@ -42,6 +42,15 @@ type IP struct {
 	Cover  *IC  `gorm:"polymorphic:Owner;polymorphicValue:xp;foreignKey:Code"`
 	Subs   []IU `gorm:"foreignKey:PCode;references:Code"`
 	CTags  []IH `gorm:"many2many:ip_ctags;foreignKey:Code;joinForeignKey:OwnerCode;references:Code;joinReferences:TagCode"`
+	// many2many whose two sides have keys of DIFFERENT lengths: one owner column, two target columns
+	WTags []IW `gorm:"many2many:ip_wtags;foreignKey:K;joinForeignKey:OwnerK;references:A,B;joinReferences:TagA,TagB"`
+}
+
+// IW: a many2many target with a composite (string, string) key below the single-key parent IP
+type IW struct {
+	A string `gorm:"primaryKey"`
+	B string `gorm:"primaryKey"`
+	Base
 }
 type IO struct {
 	Lbl *string // nullable column declared BEFORE the key: the first column of a joined row can be NULL
@@ -135,6 +144,14 @@ type CP struct {
 	Tags   []CG `gorm:"many2many:cp_tags;foreignKey:A,B;joinForeignKey:OwnerA,OwnerB;references:A,B;joinReferences:TagA,TagB"`
 	Boss   *CP  `gorm:"foreignKey:BA,BB;references:A,B"`
 	Team   []CP `gorm:"foreignKey:BA,BB;references:A,B"`
+	// many2many whose two sides have keys of DIFFERENT lengths: two owner columns, one target column
+	WTags []CW `gorm:"many2many:cp_wtags;foreignKey:A,B;joinForeignKey:OwnerA,OwnerB;references:K;joinReferences:TagK"`
+}
+
+// CW: a many2many target with a single uint key below the composite-key parent CP
+type CW struct {
+	K uint `gorm:"primaryKey;autoIncrement:false"`
+	Base
 }
 type CO struct {
 	Lbl *string // nullable column declared BEFORE the key: the first column of a joined row can be NULL
